@@ -46,6 +46,10 @@ func ToV1(v val.V) *v1ddb.AttributeValue {
 	case val.KSS:
 		out := make([]*string, 0, len(v.Set))
 		for _, m := range v.Set {
+			if m == NilName {
+				out = append(out, nil) // a set member that is a nil pointer
+				continue
+			}
 			s := m
 			out = append(out, &s)
 		}
@@ -53,6 +57,10 @@ func ToV1(v val.V) *v1ddb.AttributeValue {
 	case val.KNS:
 		out := make([]*string, 0, len(v.Set))
 		for _, m := range v.Set {
+			if m == NilName {
+				out = append(out, nil)
+				continue
+			}
 			s := m
 			out = append(out, &s)
 		}
